@@ -147,6 +147,66 @@ def run(ctx):
                        ", ".join("%s (%s)" % t for t in transformers[:3])), c.where())
     ctx.floor("consume_text_span call sites", n_cts, 4)
 
+    # ---------------- R10.12 the lexer is given the whole text
+    # A routine that receives the text of a file as a `&str` parameter and hands it to the constructor of the lexer or of
+    # the parser hands over that very slice: nothing may be cut off in between (the tree is installed for the whole file).
+    # Token-stream entry points slice on purpose and carry an offset; their text does not come from a `&str` parameter.
+    def text_slice(f, op, limit=300):
+        from .lib import rvalue_operands
+        names, params, todo, seen = [], set(), [op], set()
+        while todo and len(seen) < limit:
+            o = todo.pop()
+            pl = op_place(o)
+            if pl is None:
+                continue
+            l = place_local(pl)
+            if l in seen:
+                continue
+            seen.add(l)
+            if 1 <= l <= f.argc and "str" in (f.local_ty(l) or "") and (f.local_ty(l) or "").startswith("&"):
+                params.add(l)
+            for d in f.defs().get(l, []):
+                if d[0] == "stmt":
+                    rv = d[3]
+                    if rv[0] == "ref":
+                        todo.append(["c", rv[1]])
+                    else:
+                        todo.extend(rvalue_operands(rv))
+                elif d[0] == "call":
+                    names.append((d[2].name(), d[2].where()))
+                    if d[2].args:
+                        todo.append(d[2].args[0])
+        return names, params
+    n_text = 0
+    for p, f in sorted(F.fns.items()):
+        if not f.body or f.crate != "cairo_lang_parser":
+            continue
+        sites = []
+        for c in f.calls():
+            if (c.path.startswith(LEXER) or c.path.startswith(PARSER)) and c.name() == "new":
+                for a in c.args:
+                    pl = op_place(a)
+                    ty = (f.local_ty(place_local(pl)) or "") if pl is not None else ""
+                    if ty.startswith("&") and "str" in ty:
+                        sites.append((c, a, "%s::new" % ("Lexer" if c.path.startswith(LEXER) else "Parser")))
+        for i, j, st in f.stmts():
+            if st[0] == "a" and st[2][0] == "agg" and st[2][1] == "adt" and st[2][2] in (PARSER, LEXER) and "text" in (st[2][5] or []):
+                o = dict(zip(st[2][5], st[2][3]))["text"]
+                sites.append((None, o, "%s.text" % last_seg(st[2][2])))
+        k = 0
+        for c, a, what in sites:
+            names, params = text_slice(f, a)
+            if not params:
+                continue
+            bad = [n for n in names if n[0] not in TEXT_ID]
+            k += 1
+            n_text += 1
+            ctx.ob("R10.12", "%s|%s#%d" % (fn_key(p), what, k), not bad,
+                   "the text parameter reaches %s unchanged" % what if not bad else
+                   "the text parameter is passed through %s before it reaches %s: the lexer does not see the whole file" % (
+                       ", ".join("%s (%s)" % n for n in bad[:3]), what), c.where() if c is not None else f.where())
+    ctx.floor("places where a text parameter is handed to the lexer / parser", n_text, 4)
+
     # ---------------- R10.3 linear use of lexed terminals
     adv_callers = set(last_seg(c.fn.root) for c in F.callers_of("Parser") if c.name() == "advance" and c.path.startswith(PARSER))
     ctx.ob("R10.3", "advance-callers", adv_callers == {"take_raw", "unglue"}, "Parser::advance is called by %s" % sorted(adv_callers), "")
